@@ -20,6 +20,10 @@ def check(A):
         C.loop_condition_rule(A, cf, 'C09')
         C.write_loop_sentinel_rule(A, cf, 'C09')
     C.url_rule(A, 'C09')
+    for cf in C.CFLAVOURS:
+        C.connect_polling_rules(A, cf, 'C09')
+    from . import C02
+    C02.check(A, only_decode=True, prefix='C09')
     # what the client puts on the wire / echoes in a PONG is Packet.encode's text form for
     # every payload, the falsy ones included (rule shared with C01)
     from . import C01
